@@ -79,6 +79,8 @@ def run(tier, seed):
     v.assumptions += ["real schedules are sampled (free-running threads released by a barrier), only the specification's interleavings are exhaustive",
                       "a run that does not finish within 60 s is recorded as a deadlock",
                       "answers are compared through digests of the full result structures; the sequential table is computed on both feature configurations"]
+    vlib.scale_stage(v, wd, "C19", sync=True)
+    vlib.scale_stage(v, wd, "C19")
     return v.finish("model_checking",
                     "M1: all interleavings of %s threads x 2 queries of 4 kinds around the regex-manager lock with nondeterministic cache discards "
                     "(mutual exclusion, no panic/poisoning, deadlock freedom, sequential answers, termination under weak fairness), plus two deviation "
